@@ -51,6 +51,11 @@ def build(ctx):
     nodes.append({"name": "sub", "kind": "dir", "kids": sub, "perm": 0o755})
     nodes.append({"name": "emptydir", "kind": "dir", "kids": []})
     nodes.append({"name": "fifo1", "kind": "fifo"})
+    # every kind of entry the mode string has a letter for: a socket always, device nodes where the sandbox may create them
+    nodes.append({"name": "ctl.sock", "kind": "sock"})
+    if fstree.can_mknod():
+        nodes.append({"name": "blk0", "kind": "blk"})
+        nodes.append({"name": "chr0", "kind": "chr"})
     fstree.build(root, nodes)
     for p, uid, gid in (("a.txt", 12345, 54321), ("B", 1, 2), ("sub/f1", 65534, 65534)):
         os.chown(os.path.join(root, p), uid, gid)
@@ -138,6 +143,11 @@ def run(ctx):
     entries = [(p, n) for _, p, n in walklib.ref_listing(obs, "w", 0, 0)]
     natoms = 700 if ctx.tier == "quick" else 20000
     atoms = []
+    # always: every mode string that occurs in the tree (one per kind of entry and permission pattern), equal and not equal
+    for v in sorted({attr(n, p, "mode") for p, n in entries}):
+        atoms.append(dict(kind="str", col="mode", opk="eq", text="mode = %s" % qlib.quote(v), lit=v))
+        atoms.append(dict(kind="str", col="mode", opk="ne", text="mode != %s" % qlib.quote(v), lit=v))
+    natoms += len(atoms)
     while len(atoms) < natoms:
         kind = rng.choice(["int", "int", "int", "str", "bool", "bool", "between", "colcol", "unit", "date"])
         opk = rng.choice(list(OPS))
